@@ -7,6 +7,7 @@ mod text;
 mod iter;
 mod game;
 mod misc;
+mod extra;
 
 fn main() {
     let args: Vec<String> = std::env::args().collect();
@@ -34,6 +35,8 @@ fn main() {
         "zob" => misc::zob(n),
         "crowded" => misc::crowded(n),
         "miri" => misc::miri_cases(),
+        "extra" => extra::run(n),
+        "extra2" => extra::run2(n),
         _ => { eprintln!("unknown command {}", cmd); std::process::exit(2); }
     }
 }
